@@ -155,6 +155,9 @@ func (db *SingleBucketBackend) getBucketWithFilePrefixLocked(bucket string, pref
 		}
 
 		if entry.IsDir() {
+			if !holdsObject(db.fs, filepath.FromSlash(objectPath)) {
+				continue
+			}
 			response.AddPrefix(path.Join(prefixPath, entry.Name()) + "/")
 
 		} else {
